@@ -186,7 +186,7 @@ impl Prop for C16 {
         tier.pick(60_000, 5_000_000)
     }
     fn strategy(_tier: Tier) -> BoxedStrategy<Case> {
-        let name = prop_oneof![3 => "[a-zA-Z0-9_.]{1,12}", 2 => sjis_string(8), 1 => proptest::sample::select(vec!["Count".to_string(), "Info".to_string(), "".to_string(), "Data".to_string(), "Header".to_string()])];
+        let name = prop_oneof![60 => "[a-zA-Z0-9_.]{1,12}", 40 => sjis_string(8), 1 => crate::gen::strings::long_sjis_string(), 20 => proptest::sample::select(vec!["Count".to_string(), "Info".to_string(), "".to_string(), "Data".to_string(), "Header".to_string()])];
         let len = prop_oneof![200 => Just(0u32), 300 => 1u32..=9, 300 => 0u32..=600, 1 => 3_000u32..=70_000];
         let negative = prop_oneof![
             8 => Just(Negative::None),
